@@ -63,9 +63,16 @@ void h_ct_kwp(void)
 	CT_BEGIN(1); e2 = beltKWPUnwrap(d2, ytok, TOK, yhdr, ykey, 32); CT_END();
 	V_ASSUME(e1 == ERR_BAD_KEYTOKEN && e2 == ERR_BAD_KEYTOKEN);
 	V_ASSERT(ct_same(), "beltKWPUnwrap (given header): rejecting branch trace independent of key, token and header");
+	V_CANARY("ct_kwp");
+}
+void h_ct_kwp0(void)
+{
+	TWO(octet, key, 32); TWO(octet, tok, TOK);
+	octet d1[TOK - 16], d2[TOK - 16];
+	err_t e1, e2;
 	CT_BEGIN(0); e1 = beltKWPUnwrap(d1, xtok, TOK, 0, xkey, 32); CT_END();
 	CT_BEGIN(1); e2 = beltKWPUnwrap(d2, ytok, TOK, 0, ykey, 32); CT_END();
 	V_ASSUME(e1 == ERR_BAD_KEYTOKEN && e2 == ERR_BAD_KEYTOKEN);
 	V_ASSERT(ct_same(), "beltKWPUnwrap (zero header): rejecting branch trace independent of key and token");
-	V_CANARY("ct_kwp");
+	V_CANARY("ct_kwp0");
 }
